@@ -356,6 +356,7 @@ def run(ctx):
     no_address_results(ctx)
     outputs_are_truncated(ctx)
     number_text_is_terminated(ctx)
+    serialised_records_are_filled_before_use(ctx)
 
 def _enclosing_case(db, f, node):
     """Names of the case labels of the innermost switch arm containing node (a stable site context)."""
@@ -772,3 +773,66 @@ def number_text_is_terminated(ctx):
                         "the 0 byte is at index %d but the characters are at %s" % (last[1], chars)
             ctx.ob("R14.9", inst, ok, f.loc(arm), why)
     ctx.floor("R14.9", "leaf arms of pdtoa and Prettify", n, 10)
+
+
+def serialised_records_are_filled_before_use(ctx):
+    """R14.10: the database's small record classes that have no constructor (InterrogateType::Derivation, ::EnumValue,
+    InterrogateFunctionWrapper::Parameter) are made as locals, filled field by field and pushed into a vector that
+    output() later writes to the .in file.  A scalar field that is not assigned on some path holds stack bytes - under
+    ASLR typically half of an address - and the file differs from run to run.  Every such local has each of its scalar
+    fields assigned on every path from its declaration to the push_back / copy that stores it.
+    (Seed S10-C14: `d._flags = 0;` dropped in the branch that records the bases of a class publishing nothing.)"""
+    db = ctx.db
+    ctx.rule("R14.10", "a local of a constructor-less, serialised record class of the database has every scalar field assigned on every path before it is stored in a container")
+    recs = {}
+    for name, r in db.records.items():
+        if "/interrogatedb/" not in r["file"]:
+            continue
+        short = name.split("::")[-1]
+        if db.fns(name + "::" + short):
+            continue
+        if not any(m.get("n", "").endswith("::output") for m in r.get("methods", [])):
+            continue
+        fields = [fl["n"] for fl in r["fields"] if not fl.get("static") and _is_scalar(db, fl.get("t"), fl.get("ct"))]
+        if fields:
+            recs[name] = fields
+    ctx.floor("R14.10", "constructor-less serialised record classes", len(recs), 2)
+    n = 0
+    for f in db.functions:
+        if not any(d in f.file for d in ("/interrogate/", "/interrogatedb/")):
+            continue
+        locs = {}
+        for y in f.walk():
+            if y.get("k") == "decls":
+                for dd in y["d"]:
+                    t = (dd.get("t") or "").replace("class ", "").replace("struct ", "").strip()
+                    for name in recs:
+                        if t == name or t == name.split("::", 1)[-1] or (dd.get("ct") or "").strip() == name:
+                            init = strip_casts(peel(dd.get("init"))) if dd.get("init") is not None else None
+                            if init is None or (init.get("k") == "ctor" and not init.get("a")):
+                                locs[dd["d"]] = (name, y, dd.get("n"))
+        if not locs:
+            continue
+        for c in f.walk():
+            if not (c.get("k") == "call" and callee_short(c) in ("push_back", "insert", "emplace_back") and c.get("a")):
+                continue
+            r = local_ref(c["a"][-1])
+            if r is None or r.get("d") not in locs:
+                continue
+            name, decl, vname = locs[r["d"]]
+            # a reader fills the whole object through its extraction operator / input()
+            filled = [y for y in f.walk() if y.get("k") == "call" and (callee_short(y) in ("operator>>", "input")) and
+                      any((local_ref(a) or {}).get("d") == r["d"] for a in ([y.get("this")] if "this" in y else []) + list(y.get("a", [])))]
+            if filled and not G.reaches_avoiding(f, decl, filled, c):
+                continue
+            for fld in recs[name]:
+                n += 1
+                sets = [y for y in f.walk() if assigned_target(y) and (field_of(strip_casts(peel(assigned_target(y)[0]))) or "") == name + "::" + fld and
+                        (local_ref(strip_casts(peel(assigned_target(y)[0])).get("b")) or {}).get("d") == r["d"]]
+                sets += [y for y in f.walk() if y.get("k") == "bin" and y.get("op") in ("|=", "&=", "+=") and False]
+                ok = bool(sets) and not G.reaches_avoiding(f, decl, sets, c)
+                ctx.ob("R14.10", "%s|%s.%s|assigned-before-stored@%s" % (f.name, vname, fld, f.loc(c).split(":")[-1]), ok, f.loc(c),
+                       "`%s.%s` is assigned on every path from the declaration to this %s" % (vname, fld, callee_short(c)) if ok else
+                       "`%s.%s` can reach this %s unassigned: the field is written to the database as it lies on the stack" % (vname, fld, callee_short(c)))
+    ctx.floor("R14.10", "field x store obligations", n, 8)
+
